@@ -241,6 +241,124 @@ theorem setKey_of_not_mem' {α : Type} (db : List (String × α)) (k : String) (
 section
 variable {S V : Type}
 
+/-- popping distinct existing names: the dictionary without them, and their values in order -/
+theorem popAll_eq (db : Box S V) (ns : List String) (hnd : ns.Nodup) (hin : ∀ n ∈ ns, n ∈ keys db) :
+    popAll db ns = .ok (db.filter (fun q => !ns.contains q.1), ns.filterMap (lookup db)) := by
+  induction ns generalizing db with
+  | nil =>
+    simp only [popAll, pure, Except.pure, List.contains_nil, Bool.not_false, List.filterMap_nil]
+    rw [List.filter_eq_self.mpr (fun _ _ => rfl)]
+  | cons n rest ih =>
+    simp only [List.nodup_cons] at hnd
+    obtain ⟨v, hv⟩ := lookup_of_mem_keys db n (hin n (by simp))
+    unfold popAll
+    simp only [hv]
+    have hin' : ∀ m ∈ rest, m ∈ keys (delKey db n) := by
+      intro m hm
+      rw [keys_delKey]
+      exact List.mem_filter.mpr ⟨hin m (List.mem_cons_of_mem _ hm), by simp [fun e : m = n => hnd.1 (e ▸ hm)]⟩
+    rw [ih (delKey db n) hnd.2 hin']
+    simp only [bind, Except.bind, pure, Except.pure, List.filterMap_cons, hv]
+    congr 2
+    · unfold delKey
+      rw [List.filter_filter]
+      apply List.filter_congr
+      intro q _
+      by_cases hq : q.1 = n
+      · simp [hq]
+      · simp [hq, Ne.symm hq]
+    · congr 1
+      apply filterMap_congr_mem
+      intro m hm
+      exact lookup_delKey_ne _ _ _ (fun e => hnd.1 (e ▸ hm))
+
+theorem assignAll_fresh (db : Box S V) (l : List (String × Item S V)) (hnd : (keys l).Nodup) (hf : ∀ p ∈ l, p.1 ∉ keys db) :
+    assignAll db l = db ++ l := by
+  unfold assignAll
+  induction l generalizing db with
+  | nil => simp
+  | cons p rest ih =>
+    simp only [keys, List.map_cons, List.nodup_cons] at hnd
+    simp only [List.foldl_cons]
+    rw [setKey_of_not_mem' db p.1 p.2 (hf p (by simp)), ih _ hnd.2]
+    · simp
+    · intro q hq hm
+      simp only [keys, List.map_append, List.map_cons, List.map_nil, List.mem_append, List.mem_singleton] at hm
+      rcases hm with hm | hm
+      · exact hf q (List.mem_cons_of_mem _ hq) hm
+      · exact hnd.1 (hm ▸ List.mem_map_of_mem (f := (·.1)) hq)
+
+theorem lookup_assignAll_mem (db : Box S V) (l : List (String × Item S V)) (hnd : (keys l).Nodup) (k : String) (v : Item S V)
+    (h : (k, v) ∈ l) : lookup (assignAll db l) k = some v := by
+  unfold assignAll
+  induction l generalizing db with
+  | nil => simp at h
+  | cons p rest ih =>
+    simp only [keys, List.map_cons, List.nodup_cons] at hnd
+    simp only [List.foldl_cons]
+    rcases List.mem_cons.mp h with h | h
+    · subst h
+      have : ∀ (acc : Box S V), lookup acc k = some v →
+          lookup (rest.foldl (fun acc p => setKey acc p.1 p.2) acc) k = some v := by
+        intro acc hacc
+        induction rest generalizing acc with
+        | nil => exact hacc
+        | cons q qs ihq =>
+          simp only [List.foldl_cons]
+          apply ihq
+          · intro hm; exact hnd.1 (List.mem_cons_of_mem _ hm)
+          · simp only [List.map_cons, List.nodup_cons] at hnd ⊢; exact hnd.2.2
+          · intro _ hq; exact absurd hq (by
+              intro hq'; exact hnd.1 (by simpa using List.mem_cons_of_mem _ (List.mem_map_of_mem (f := (·.1)) hq')))
+          · rw [lookup_setKey, if_neg]; exact hacc
+            intro e; exact hnd.1 (by simp [e])
+      exact this _ (by simp [lookup_setKey])
+    · exact ih _ hnd.2 h
+
+theorem lookup_assignAll_other (db : Box S V) (l : List (String × Item S V)) (k : String) (h : k ∉ keys l) :
+    lookup (assignAll db l) k = lookup db k := by
+  unfold assignAll
+  induction l generalizing db with
+  | nil => rfl
+  | cons p rest ih =>
+    simp only [keys, List.map_cons, List.mem_cons, not_or] at h
+    simp only [List.foldl_cons]
+    rw [ih _ (by simpa [keys] using h.2), lookup_setKey, if_neg (Ne.symm h.1)]
+
+theorem zip_values (db : Box S V) (pairs : List (String × String)) (hin : ∀ p ∈ pairs, p.1 ∈ keys db) :
+    (pairs.map (·.2)).zip ((pairs.map (·.1)).filterMap (lookup db))
+      = pairs.filterMap (fun st => (lookup db st.1).map (fun v => (st.2, v))) := by
+  induction pairs with
+  | nil => rfl
+  | cons p rest ih =>
+    obtain ⟨v, hv⟩ := lookup_of_mem_keys db p.1 (hin p (by simp))
+    simp only [List.map_cons, List.filterMap_cons, hv, Option.map_some, List.zip_cons_cons]
+    rw [ih (fun q hq => hin q (List.mem_cons_of_mem _ hq))]
+
+theorem keys_zip_values (db : Box S V) (pairs : List (String × String)) (hin : ∀ p ∈ pairs, p.1 ∈ keys db) :
+    keys (pairs.filterMap (fun st => (lookup db st.1).map (fun v => (st.2, v)))) = pairs.map (·.2) := by
+  induction pairs with
+  | nil => rfl
+  | cons p rest ih =>
+    obtain ⟨v, hv⟩ := lookup_of_mem_keys db p.1 (hin p (by simp))
+    simp only [List.filterMap_cons, hv, Option.map_some, keys, List.map_cons]
+    have := ih (fun q hq => hin q (List.mem_cons_of_mem _ hq))
+    simp only [keys] at this
+    rw [this]
+
+/-- the simultaneous rename on distinct existing sources, in closed form -/
+theorem renamePairs_eq (db : Box S V) (pairs : List (String × String))
+    (hs : (pairs.map (·.1)).Nodup) (hin : ∀ p ∈ pairs, p.1 ∈ keys db) :
+    renamePairs db pairs = .ok (assignAll (db.filter (fun q => !(pairs.map (·.1)).contains q.1))
+      (pairs.filterMap (fun st => (lookup db st.1).map (fun v => (st.2, v))))) := by
+  unfold renamePairs
+  rw [popAll_eq db _ hs (by
+    intro n hn
+    obtain ⟨p, hp, rfl⟩ := List.mem_map.mp hn
+    exact hin p hp)]
+  simp only [bind, Except.bind, pure, Except.pure]
+  rw [zip_values db pairs hin]
+
 /-- **rename, positive half**: distinct existing sources renamed to distinct fresh targets -- the sources disappear, every
 target is bound to the value its source had, appended in the order of the pairs; everything else stays in place -/
 theorem renamePairs_fresh (db : Box S V) (pairs : List (String × String))
@@ -248,73 +366,38 @@ theorem renamePairs_fresh (db : Box S V) (pairs : List (String × String))
     (ht : (pairs.map (·.2)).Nodup) (hfresh : ∀ p ∈ pairs, p.2 ∉ keys db) :
     renamePairs db pairs = .ok (db.filter (fun q => !(pairs.map (·.1)).contains q.1)
       ++ pairs.filterMap (fun st => (lookup db st.1).map (fun v => (st.2, v)))) := by
-  induction pairs generalizing db with
-  | nil =>
-    simp only [renamePairs, pure, Except.pure, List.map_nil, List.contains_nil, Bool.not_false, List.filterMap_nil,
-      List.append_nil]
-    rw [List.filter_eq_self.mpr (fun _ _ => rfl)]
-  | cons st rest ih =>
-    obtain ⟨s, t⟩ := st
-    simp only [List.map_cons, List.nodup_cons] at hs ht
-    have hsin : s ∈ keys db := hin (s, t) (by simp)
-    have htf : t ∉ keys db := hfresh (s, t) (by simp)
-    obtain ⟨v, hv⟩ := lookup_of_mem_keys db s hsin
-    unfold renamePairs
-    simp only [hv]
-    have htd : t ∉ keys (delKey db s) := by
-      rw [keys_delKey]; intro hm; exact htf (List.mem_filter.mp hm).1
-    rw [setKey_of_not_mem' _ _ _ htd]
-    -- the remaining pairs in the new state
-    have hin' : ∀ p ∈ rest, p.1 ∈ keys (delKey db s ++ [(t, v)]) := by
-      intro p hp
-      have h1 := hin p (List.mem_cons_of_mem _ hp)
-      have h2 : p.1 ≠ s := fun e => hs.1 (e ▸ List.mem_map_of_mem (f := (·.1)) hp)
-      simp only [keys, List.map_append, List.mem_append]
-      left
-      have := keys_delKey db s
-      simp only [keys] at this
-      rw [this]
-      exact List.mem_filter.mpr ⟨h1, by simp [h2]⟩
-    have hfresh' : ∀ p ∈ rest, p.2 ∉ keys (delKey db s ++ [(t, v)]) := by
-      intro p hp hm
-      have h1 := hfresh p (List.mem_cons_of_mem _ hp)
-      have h2 : p.2 ≠ t := fun e => ht.1 (e ▸ List.mem_map_of_mem (f := (·.2)) hp)
-      simp only [keys, List.map_append, List.mem_append, List.map_cons, List.map_nil, List.mem_singleton] at hm
-      rcases hm with hm | hm
-      · have := keys_delKey db s
-        simp only [keys] at this
-        rw [this] at hm
-        exact h1 (List.mem_filter.mp hm).1
-      · exact h2 hm
-    rw [ih (delKey db s ++ [(t, v)]) hs.2 hin' ht.2 hfresh']
-    congr 1
-    -- the two descriptions of the result agree
-    have htrest : t ∉ rest.map (·.1) := by
-      intro hm
-      obtain ⟨p, hp, hpe⟩ := List.mem_map.mp hm
-      exact htf (hpe ▸ hin p (List.mem_cons_of_mem _ hp))
-    have e1 : (delKey db s ++ [(t, v)]).filter (fun q => !(rest.map (·.1)).contains q.1)
-        = db.filter (fun q => !(s :: rest.map (·.1)).contains q.1) ++ [(t, v)] := by
-      rw [List.filter_append]
-      congr 1
-      · unfold delKey
-        rw [List.filter_filter]
-        apply List.filter_congr
-        intro q _
-        by_cases hq : q.1 = s
-        · simp [hq]
-        · simp [hq, Ne.symm hq]
-      · simp [htrest]
-    have e2 : rest.filterMap (fun st => (lookup (delKey db s ++ [(t, v)]) st.1).map (fun w => (st.2, w)))
-        = rest.filterMap (fun st => (lookup db st.1).map (fun w => (st.2, w))) := by
-      apply filterMap_congr_mem
-      intro p hp
-      have h1 := hin p (List.mem_cons_of_mem _ hp)
-      have h2 : p.1 ≠ s := fun e => hs.1 (e ▸ List.mem_map_of_mem (f := (·.1)) hp)
-      obtain ⟨w, hw⟩ := lookup_of_mem_keys db p.1 h1
-      rw [lookup_append, lookup_delKey_ne _ _ _ h2, hw]
-    rw [e1, e2]
-    simp [hv]
+  rw [renamePairs_eq db pairs hs hin, assignAll_fresh]
+  · rw [keys_zip_values db pairs hin]; exact ht
+  · intro p hp hm
+    have hk : p.1 ∈ pairs.map (·.2) := by
+      rw [← keys_zip_values db pairs hin]; exact List.mem_map_of_mem (f := (·.1)) hp
+    obtain ⟨q, hq, hqe⟩ := List.mem_map.mp hk
+    have : p.1 ∈ keys db := by
+      simp only [keys] at hm ⊢
+      obtain ⟨x, hx, hxe⟩ := List.mem_map.mp hm
+      exact List.mem_map.mpr ⟨x, (List.mem_filter.mp hx).1, hxe⟩
+    exact hfresh q hq (hqe ▸ this)
+
+/-- **no value is lost** (swaps, chains, cycles, identities, targets onto existing names): for distinct existing sources and
+distinct targets, after the call every target is bound to the value its source had before it, every source that is not a
+target is gone, and every other name is bound as before -/
+theorem renamePairs_simultaneous (db : Box S V) (pairs : List (String × String))
+    (hs : (pairs.map (·.1)).Nodup) (hin : ∀ p ∈ pairs, p.1 ∈ keys db) (ht : (pairs.map (·.2)).Nodup) :
+    ∃ r, renamePairs db pairs = .ok r
+      ∧ (∀ p ∈ pairs, lookup r p.2 = lookup db p.1)
+      ∧ (∀ n, n ∉ pairs.map (·.2) → lookup r n = if n ∈ pairs.map (·.1) then none else lookup db n) := by
+  refine ⟨_, renamePairs_eq db pairs hs hin, ?_, ?_⟩
+  · intro p hp
+    obtain ⟨v, hv⟩ := lookup_of_mem_keys db p.1 (hin p hp)
+    rw [hv]
+    apply lookup_assignAll_mem
+    · rw [keys_zip_values db pairs hin]; exact ht
+    · exact List.mem_filterMap.mpr ⟨p, hp, by simp [hv]⟩
+  · intro n hn
+    rw [lookup_assignAll_other _ _ _ (by rw [keys_zip_values db pairs hin]; exact hn)]
+    have := lookup_filter_key (fun k => !(pairs.map (·.1)).contains k) db n
+    rw [this]
+    by_cases hm : n ∈ pairs.map (·.1) <;> simp [hm]
 
 end
 
@@ -385,7 +468,7 @@ theorem rename_onto_existing (db : Box S V) (s t : String) (v : Item S V) (hs : 
       ∧ lookup (setKey (delKey db s) t v) t = some v
       ∧ lookup (setKey (delKey db s) t v) s = none
       ∧ ∀ n, n ≠ s → n ≠ t → lookup (setKey (delKey db s) t v) n = lookup db n := by
-  refine ⟨by simp [renamePairs, hs, pure, Except.pure], by simp [lookup_setKey], ?_, ?_⟩
+  refine ⟨by simp [renamePairs, popAll, assignAll, hs, bind, Except.bind, pure, Except.pure], by simp [lookup_setKey], ?_, ?_⟩
   · rw [lookup_setKey, if_neg (Ne.symm hst), lookup_delKey_self]
   · intro n h1 h2
     rw [lookup_setKey, if_neg (Ne.symm h2), lookup_delKey_ne _ _ _ h1]
